@@ -125,6 +125,10 @@ def deserialize_u128(value_type: type, value: bytes) -> int:
     return int.from_bytes(value, "little")
 
 
+def deserialize_float(value_type: type, value: bytes) -> float:
+    return struct.unpack("<f", value)[0]
+
+
 def deserialize_str(value_type: type, value: bytes) -> str:
     return value.decode("utf-8")
 
@@ -175,6 +179,10 @@ def serialize_u64(value_type: type, value: int) -> bytes:
 
 def serialize_u128(value_type: type, value: int) -> bytes:
     return value.to_bytes(length=16, byteorder="little")
+
+
+def serialize_float(value_type: type, value: float) -> bytes:
+    return struct.pack("<f", value)
 
 
 def serialize_str(value_type: type, value: str) -> bytes:
@@ -307,6 +315,7 @@ DESERIALIZERS: dict[type, DeserializerCallback] = {
     u32: deserialize_u32,
     u64: deserialize_u64,
     u128: deserialize_u128,
+    float: deserialize_float,
     str: deserialize_str,
     enum.IntEnum: deserialize_int_enum,
     TLVStruct: deserialize_tlv_struct,
@@ -321,6 +330,7 @@ SERIALIZERS: dict[type, SerializerCallback] = {
     u32: serialize_u32,
     u64: serialize_u64,
     u128: serialize_u128,
+    float: serialize_float,
     str: serialize_str,
     enum.IntEnum: serialize_int_enum,
     TLVStruct: serialize_tlv_struct,
